@@ -269,12 +269,12 @@ def parse_case(case, impl):
             db = [int(x) for x in w[1:]]
         elif w[0] == "q" and obs == "ok":
             q = int(w[1])
-        elif w[0] in ("search", "searchord", "prefetch", "best"):
+        elif w[0] in ("search", "searchord", "prefetch", "best", "clisearch", "cliprefetch"):
             out.append((idx, w[0], w[1:], obs, (dict(sk), list(db), q)))
     return out
 
 
-STATS = {"ops_by_container": {}, "documented_refusals": {}, "loud_but_empty": {}, "answers_checked": 0, "matches_checked": 0}
+STATS = {"tie_threshold_ops": 0, "cli_checked": 0, "cli_skipped": {}, "ops_by_container": {}, "documented_refusals": {}, "loud_but_empty": {}, "answers_checked": 0, "matches_checked": 0}
 
 
 def _bump(d, k):
@@ -286,6 +286,9 @@ def oracle(case, impl):
     bad = []
     for idx, op, a, obs, (sk, dbids, qi) in parse_case(case, impl):
         if qi is None or qi not in sk or any(i not in sk for i in dbids) or obs == "bad-op":
+            continue
+        if op in ("clisearch", "cliprefetch"):
+            oracle_cli(idx, op, a, obs, sk, qi, case, bad)
             continue
         q = sk[qi]
         db = [sk[i] for i in dbids]
@@ -343,6 +346,8 @@ def oracle(case, impl):
             exp = brute_prefetch(bp, q, db)
         else:
             exp = brute(mode, thr, q, db)
+            if any(sc == thr for _, sc in exp):
+                STATS["tie_threshold_ops"] += 1      # the threshold IS the score of a database entry (exact tie)
         # expected as (name, md5, score); LCA returns the sketch as stored (downsampled to the database's scaled)
         def ident(pos):
             return db[pos].name, db[pos].md5
@@ -411,6 +416,225 @@ def oracle(case, impl):
             bad.append((idx, sig, f"`{case[idx]}`: returned {len(gotl)} expected {len(expl)}; missing {missing[:3]} invented {extra[:3]} "
                                   f"wrong score (expected shown) {wrong[:3]}; query scaled={q.sc} num={q.num} |Q|={len(q.hashes)}"))
     return bad
+
+
+
+# --------------------------------------------------------------------------
+# command-line tier
+
+def _parse_cli_obs(obs):
+    """'ok C=.. A=.. S=.. D=..' -> dict of lists"""
+    d = {}
+    for part in obs.split()[1:]:
+        k, _, v = part.partition("=")
+        d[k] = [] if v in ("-", "") else v.split(",")
+    return d
+
+
+def _db_groups(spec, sk):
+    """'sig:0,1;lca:2' -> [(kind, [Sk as the database holds them])]"""
+    out = []
+    for part in spec.split(";"):
+        kind, ids = part.split(":")
+        ents = [sk[int(i)] for i in ids.split(",") if i != ""]
+        if kind == "lca" and ents:
+            S = max(x.sc for x in ents)
+            M = max(x.mh for x in ents if x.sc == S)
+            ents = [e.at_scaled(S, M) for e in ents]
+        out.append((kind, ents))
+    return out
+
+
+def _sql_query_empty(q, groups):
+    """some .sqldb is coarser than the query and no query hash survives downsampling to it"""
+    for kind, ents in groups:
+        if kind == "sql" and ents and q.sc and ents[0].sc > q.sc and not [h for h in q.hashes if h <= ents[0].mh]:
+            return True
+    return False
+
+
+def _code_prefetch_rule(bp, q, d):
+    """what the code does (finding D6): fraction fixed at the query's original scaled and size"""
+    qs, sh, ds, tot = sizes(q, d)
+    if not qs or not sh:
+        return False
+    thr = (float(bp) / q.sc) / len(q.hashes) if bp else 0.0
+    return sh / qs >= thr
+
+
+def oracle_cli(idx, op, a, obs, sk, qi, case, bad):
+    q = sk[qi]
+    line = case[idx]
+    try:
+        groups = _db_groups(a[0], sk)
+    except (KeyError, ValueError):
+        return          # a shrunk / foreign case that no longer defines every sketch
+    if obs == "bad-op":
+        return
+    if op == "clisearch":
+        mode, best, thr, nres, ignore = a[1], int(a[2]), float(a[3]), int(a[4]), int(a[5])
+        containment = mode in ("c", "m")
+        if q.track and not ignore:
+            # abundance-weighted search (angular similarity: C05's subject): command line == API only
+            if obs.startswith("ok "):
+                o = _parse_cli_obs(obs)
+                if o["C"] != o["A"]:
+                    bad.append((idx, "C06:cli:search-abund-differs-from-api", f"`{line}`: CSV rows {o['C'][:3]} != in-process {o['A'][:3]}"))
+                STATS["cli_checked"] += 1
+            return
+        if q.track:
+            q = q.at_scaled(q.sc, q.mh)
+        if not q.sc and containment:
+            if not (obs.startswith("exit") or obs.startswith("err")):
+                bad.append((idx, "C06:cli:containment-num-query-not-refused", f"`{line}`: {obs[:80]}"))
+            return
+        if obs == "err ValueError" and mode == "j":
+            _bump(STATS["cli_skipped"], "search aborted in ANI estimation (ValueError varN<0.0: finding D16 of C17)")
+            return
+        refused = any(kind in ("sbt", "lca") and ents and not containment and q.sc and q.sc > ents[0].sc
+                      for kind, ents in groups)
+        if refused:
+            # documented: select() refuses a Jaccard search with a query coarser than the database; the command
+            # reports it and stops (--fail-on-empty-database is the default)
+            if not obs.startswith("exit"):
+                bad.append((idx, "C06:cli:coarser-jaccard-not-refused", f"`{line}`: {obs[:80]}"))
+            _bump(STATS["cli_skipped"], "documented refusal (Jaccard, query coarser than an SBT / LCA database)")
+            return
+        if obs == "err ValueError" and not q.hashes and any(k == "sql" and e for k, e in groups):
+            _bump(STATS["cli_skipped"], "empty query against a .sqldb: ValueError from max() (nothing can match)")
+            return
+        if obs == "err ValueError" and _sql_query_empty(q, groups):
+            bad.append((idx, "C06:sqlite-empty-downsampled-query-raises",
+                        f"`{line}`: sourmash search aborts with ValueError (max() of no hashes in SqliteIndex._get_matching_sketches): "
+                        f"the query has no hash left at the scaled of one .sqldb; the other databases are not reported"))
+            return
+        if not obs.startswith("ok "):
+            bad.append((idx, f"C06:cli:search-failed:{obs.split()[-1]}", f"`{line}`: sourmash search ended with `{obs}`"))
+            return
+        o = _parse_cli_obs(obs)
+        exp = {}
+        for kind, ents in groups:
+            if not ents:
+                continue
+            if kind in ("sbt", "lca") and not containment and q.sc and q.sc > ents[0].sc:
+                continue            # documented: select() refuses, the command reports it and goes on
+            if kind in ("sbt", "lca", "sql") and q.num and kind != "sbt":
+                continue
+            for pos, sc in brute(mode, thr, q, ents):
+                d = ents[pos]
+                exp.setdefault((d.md5, d.sc, d.num), sc)
+        expl = sorted((k[0], v) for k, v in exp.items())
+        got = []
+        for it in o["C"]:
+            name, md5, hx = it.rsplit("/", 2)
+            got.append((md5, float.fromhex(hx)))
+        scores = [g[1] for g in got]
+        if any(scores[i] < scores[i + 1] for i in range(len(scores) - 1)):
+            bad.append((idx, "C06:cli:search-unsorted", f"`{line}`: CSV rows are not sorted by descending similarity"))
+        if o["C"] != o["A"]:
+            bad.append((idx, "C06:cli:search-differs-from-api", f"`{line}`: CSV rows {o['C'][:3]} != in-process {o['A'][:3]}"))
+        if sorted(x.rsplit("/", 1)[0] for x in o["C"]) != sorted(o["S"]):
+            bad.append((idx, "C06:cli:save-matches-differs-from-rows", f"`{line}`: --save-matches holds {o['S'][:3]}, the CSV {o['C'][:3]}"))
+        if best:
+            extra = [g for g in got if g not in expl]
+            top = [e for e in expl if e[1] == max(x[1] for x in expl)] if expl else []
+            # best-only is per database: every global maximum is the maximum of its database
+            missing = [e for e in top if e not in got]
+            if extra or missing:
+                bad.append((idx, "C06:cli:search-best-only", f"`{line}`: rows {got[:3]}; not brute-force matches {extra[:3]}; best missing {missing[:3]}"))
+            want_d = 1 if got else 0
+        else:
+            if sorted(got) != expl:
+                missing = [e for e in expl if e not in got]
+                extra = [g for g in got if g not in expl]
+                bad.append((idx, f"C06:cli:search-{'omitted' if missing else 'invented'}:{mode}",
+                            f"`{line}`: CSV has {len(got)} rows, brute force {len(expl)}; missing {missing[:3]} extra {extra[:3]}"))
+            want_d = len(got) if not nres else min(nres, len(got))
+        if int(o["D"][0]) != want_d:
+            bad.append((idx, "C06:cli:num-results", f"`{line}`: {o['D'][0]} matches displayed, expected {want_d} of {len(got)}"))
+        STATS["cli_checked"] += 1
+        return
+    # ---- prefetch
+    bp = float(a[1])
+    if q.track:
+        q = q.at_scaled(q.sc, q.mh)
+    if not q.sc or not q.hashes:
+        if not obs.startswith("exit"):
+            bad.append((idx, "C06:cli:prefetch-bad-query-not-refused", f"`{line}`: {obs[:80]}"))
+        return
+    exp = []
+    invented = []
+    for kind, ents in groups:
+        for d in ents:
+            if not d.sc:
+                continue
+            qs, sh, ds, tot = sizes(q, d)
+            S = max(q.sc, d.sc)
+            ok = sh > 0 and sh * S >= bp
+            if ok:
+                exp.append((d.name, d.md5[:8], sh * S, S))
+            if d.sc > q.sc and _code_prefetch_rule(bp, q, d) != ok:
+                invented.append(d.name)
+    if bp and (bp / q.sc) / len(q.hashes) > 1.0:
+        if not obs.startswith("err ValueError"):
+            bad.append((idx, "C06:cli:unattainable-threshold-not-refused", f"`{line}`: {obs[:80]}"))
+        return
+    if obs == "err ValueError" and _sql_query_empty(q, groups):
+        bad.append((idx, "C06:sqlite-empty-downsampled-query-raises",
+                    f"`{line}`: sourmash prefetch aborts with ValueError (max() of no hashes in SqliteIndex._get_matching_sketches)"))
+        return
+    if not obs.startswith("ok "):
+        if invented and obs == "err AssertionError":
+            # PrefetchResult.pass_threshold re-checks in base pairs what find() decided on the stale fraction
+            bad.append((idx, "C06:prefetch-bp-threshold-converted-at-query-original-scaled",
+                        f"`{line}`: sourmash prefetch aborts on `assert result.pass_threshold` for {invented[:3]}"))
+        else:
+            bad.append((idx, f"C06:cli:prefetch-failed:{obs.split()[-1]}", f"`{line}`: sourmash prefetch ended with `{obs}`"))
+        return
+    o = _parse_cli_obs(obs)
+    got = []
+    for it in o["C"]:
+        name, md5, rest = it.rsplit("/", 2)
+        ibp, scd = rest.split(":")
+        got.append((name, md5, int(float(ibp)), int(scd)))
+    if sorted(got) != sorted(exp):
+        missing = [e for e in exp if e not in got]
+        extra = [g for g in got if g not in exp]
+        names = {x[0] for x in missing + extra}
+        if invented and names <= set(invented):
+            sig = "C06:prefetch-bp-threshold-converted-at-query-original-scaled"
+        else:
+            sig = f"C06:cli:prefetch-{'omitted' if missing else 'invented'}"
+        bad.append((idx, sig, f"`{line}`: CSV rows {sorted(got)[:4]} expected {sorted(exp)[:4]}; missing {missing[:3]} extra {extra[:3]} (threshold_bp={bp})"))
+    if sorted(x.rsplit("/", 2)[0] + "/" + x.rsplit("/", 2)[1][:8] for x in o["A"]) != sorted(f"{g[0]}/{g[1]}" for g in got):
+        bad.append((idx, "C06:cli:prefetch-differs-from-api", f"`{line}`: CSV rows {o['C'][:3]} != in-process {o['A'][:3]}"))
+    if sorted(x.split("/")[0] + "/" + x.split("/")[1][:8] for x in o["S"]) != sorted(f"{g[0]}/{g[1]}" for g in got):
+        bad.append((idx, "C06:cli:save-matches-differs-from-rows", f"`{line}`: --save-matches holds {o['S'][:3]}, the CSV {o['C'][:3]}"))
+    # matching / unmatched query hashes at the coarsest scaled among the query and the matches
+    by_name = {}
+    for kind, ents in groups:
+        for d in ents:
+            by_name.setdefault((d.name, d.md5[:8]), d)
+    ms = [by_name[(g[0], g[1])] for g in got if (g[0], g[1]) in by_name]
+    common = max([q.sc] + [m.sc for m in ms])
+    mhc = q.mh if common == q.sc else max(m.mh for m in ms if m.sc == common)
+    Q = [h for h in q.hashes if h <= mhc]
+    union = set()
+    for m in ms:
+        union |= {h for h in m.hashes if h <= mhc}
+    K = sorted(h for h in Q if h in union)
+    U = sorted(h for h in Q if h not in union)
+
+    def dec(x):
+        if not x:
+            return None
+        scd, _, hs = x[0].partition(":")
+        return int(scd), [int(v) for v in hs.split(".") if v]
+    if dec(o["K"]) != (common, K):
+        bad.append((idx, "C06:cli:save-matching-hashes", f"`{line}`: --save-matching-hashes has {dec(o['K'])}, expected scaled {common} hashes {K[:6]}"))
+    if dec(o["U"]) != (common, U):
+        bad.append((idx, "C06:cli:save-unmatched-hashes", f"`{line}`: --save-unmatched-hashes has {dec(o['U'])}, expected scaled {common} hashes {U[:6]}"))
+    STATS["cli_checked"] += 1
 
 
 def nontrivial(case, impl):
@@ -524,9 +748,93 @@ def gen_order_case(rng):
     return lines
 
 
+def gen_cli_case(rng):
+    """command-line tier: a handful of sketches spread over 1-3 database files of different kinds, searched with
+    `sourmash search` / `sourmash prefetch`; thresholds as decimal TEXT (exact repr of a score = a tie, a 3-digit rounding of
+    it, the default 0.08), threshold-bp on / half a base pair around an occurring overlap"""
+    scaleds = rng.sample([1, 2, 4, 10], rng.randint(1, 3))
+    pool = _pool(rng, scaleds)
+    core = rng.sample(pool, min(len(pool), rng.randint(4, 9)))
+    lines = []
+    G = {}
+
+    def mk(i, sc, track=False, base=None):
+        hs = list(base) if base is not None else [h for h in core if rng.random() < 0.7] + rng.sample(pool, rng.randint(1, 5))
+        g = _G(0, sc, hs, track)
+        g.name = f"s{i}"
+        G[i] = g
+        lines.append(_sketch_line(i, 0, sc, track, g.name, g.hashes, rng))
+        return g
+    n = rng.randint(3, 9)
+    abund_db = rng.random() < 0.3
+    for i in range(n):
+        base = G[rng.randrange(i)].hashes if i and rng.random() < 0.1 else None
+        mk(i, rng.choice(scaleds), track=(abund_db and rng.random() < 0.5), base=base)
+    lines.append("db " + " ".join(map(str, range(n))))
+
+    def dbspec():
+        ids = list(range(n))
+        rng.shuffle(ids)
+        k = rng.randint(1, min(3, n))
+        groups = [ids[j::k] for j in range(k)]
+        if rng.random() < 0.2 and k > 1:
+            groups[1] = groups[1] + groups[0][:1]        # the same sketch in two databases
+        parts = []
+        for g in groups:
+            kinds = ["sig", "dir", "zip", "mf"]
+            homog = len({G[i].sc for i in g}) == 1
+            flat = not any(G[i].track for i in g)
+            if homog:
+                kinds.append("sbt")
+            if flat:
+                kinds.append("lca")
+            if homog and flat:
+                kinds += ["sql", "sql"]
+            parts.append(rng.choice(kinds) + ":" + ",".join(map(str, g)))
+        return ";".join(parts)
+    qid = 40
+    for _ in range(2):
+        r = rng.random()
+        sc = rng.choice(scaleds + [1, 2, 4, 10])
+        src = G[rng.randrange(n)]
+        base = (src.hashes + rng.sample(pool, 3)) if rng.random() < 0.5 else None
+        q = mk(qid, sc, track=(r < 0.25), base=base)
+        lines.append(f"q {qid}")
+        qid += 1
+        db = [G[i] for i in range(n)]
+        for _ in range(rng.randint(2, 3)):
+            mode = rng.choice(["j", "c", "c", "m"])
+            fr = []
+            for d in db:
+                qs, sh, ds, tot = sizes(q, d)
+                den = tot if mode == "j" else qs if mode == "c" else min(qs, ds)
+                if den and sh:
+                    fr.append(sh / den)
+            rr = rng.random()
+            if fr and rr < 0.4:
+                t = repr(rng.choice(fr))                 # exactly on a score
+            elif fr and rr < 0.7:
+                t = f"{rng.choice(fr):.3f}"              # the decimal a user would type
+            else:
+                t = rng.choice(["0", "0.08", "0.5", "1.0", "1e-1"])
+            lines.append(f"clisearch {dbspec()} {mode} {int(rng.random() < 0.2)} {t} {rng.choice([0, 1, 2, 3, 20])} {int(rng.random() < 0.6)}")
+        for _ in range(rng.randint(1, 2)):
+            bps = [0.0]
+            for d in db:
+                qs, sh, ds, tot = sizes(q, d)
+                if sh:
+                    o = sh * max(q.sc, d.sc)
+                    bps += [o, o - 0.5, o + 0.5, o - 1, o + 1, sh * q.sc, sh * q.sc + 0.25]
+            bp = max(0.0, rng.choice(bps))
+            lines.append(f"cliprefetch {dbspec()} {bp:g}")
+    return lines
+
+
 def gen_case(rng, flavour):
     if flavour == "order":
         return gen_order_case(rng)
+    if flavour == "cli":
+        return gen_cli_case(rng)
     return _gen_case(rng, flavour)
 
 
